@@ -176,6 +176,19 @@ func (sig EcdsaSignature) Marshal() []byte {
 	return ret
 }
 
+// PackFixed packs an ECDSA signature as r||s with each number left-padded to
+// size bytes (the byte length of the curve order), the fixed-width form
+// required by XML-DSig (RFC 4050 / xmldsig-core1) and IEEE 1363.
+func (sig EcdsaSignature) PackFixed(size int) ([]byte, error) {
+	if (sig.R.BitLen()+7)/8 > size || (sig.S.BitLen()+7)/8 > size {
+		return nil, errors.New("ecdsa signature does not fit the curve size")
+	}
+	ret := make([]byte, 2*size)
+	sig.R.FillBytes(ret[:size])
+	sig.S.FillBytes(ret[size:])
+	return ret, nil
+}
+
 // Pack an ECDSA signature by concatenating the two numbers per IEEE 1363
 func (sig EcdsaSignature) Pack() []byte {
 	// allocate space to hold both numbers
